@@ -31,6 +31,14 @@ def c12(run):
     run.add(tlc, s)
     run.rule += ("  ||  and every history to depth %d over the 8 values the priority chain itself distinguishes (consonant, three vowel signs, hasanta, chandrabindu, digit, "
                  "punctuation) x 16 settings" % d2)
+    d3 = 2 if run.quick() else 3
+    tlc, s = run_tlc_replay(run, "MC_Fixed_classes", "MC_Fixed.tla",
+                            dict(spec="Spec", constants={"Depth": d3, "Alphabet": '"classes"'},
+                                 invariants=["ImplRefinesProp", "Emit"]),
+                            "C12", workers=6, threads=8)
+    run.add(tlc, s)
+    run.rule += ("  ||  and every history to depth %d over EVERY member of every class the rules name (30 punctuation marks, 36 consonants, 11 vowels, 10 vowel signs, "
+                 "10 digits, the special signs and multi-code-point values: 107 values) x 16 settings" % d3)
     fixed_trace(run, "compose")
     run.assumptions += ["class representatives stand for their class (one consonant etc.); edge characters on which "
                         "riti's tables and the Unicode chart differ are outside the normative alphabet",
@@ -437,7 +445,8 @@ def c19(run):
     for f in (lines1, lines2):
         t0 = time.time()
         r = subprocess.run(["valgrind", "--leak-check=full", "--errors-for-leak-kinds=definite,indirect", "--error-exitcode=9", "-q",
-                            stages.RV, "replay-file", "--property", "C19", "--in", f], capture_output=True, text=True, env=stages.rv_env(), timeout=7000)
+                            stages.RV, "replay-file", "--property", "C19", "--in", f], capture_output=True, text=True,
+                           env=dict(stages.rv_env(), RV_NO_CRASH_HANDLER="1"), timeout=7000)
         n = sum(1 for _ in open(f))
         vg_runs.append({"file": os.path.basename(f), "sequences": n, "rc": r.returncode, "wall_s": round(time.time() - t0, 1)})
         if r.returncode == 9:
@@ -508,6 +517,10 @@ def replay_file(run, path):
     for l in r.stdout.split("\n"):
         if l.startswith("RV-SUMMARY "):
             summ = json.loads(l[len("RV-SUMMARY "):])
+    if summ is None and "RV-CRASH" in r.stdout:
+        print("VIOLATION property=%s replay=%s" % (run.pid, path))
+        print("   memory: the process was killed by a fatal signal while the behaviour was executed: " + " ".join(r.stderr.split()[-20:]))
+        return 1
     if summ is None:
         print("TOOL-ERROR: replay produced no summary: " + r.stderr[-500:])
         return 2
